@@ -22,6 +22,18 @@ ENGINES = {
 
 ENGINE_NAMES = {"simdst.engines.c07_pool": "A", "simdst.engines.c07_hist": "B", "simdst.engines.c08_pool": "A8", "simdst.engines.c08_hist": "B8", "simdst.engines.c09_hist": "B9", "simdst.engines.c12_hist": "H", "simdst.engines.c14_sk": "K", "simdst.engines.c19_rand": "R"}
 
+# Probes whose firing depends on what the LIBRARY does (which seam it uses, whether a solver returned a value)
+# rather than on what the harness generates.  A legitimate refactor may stop reaching a seam (e.g. another
+# parallelisation mechanism): that is reported as a WARNING and in the evidence, never as a non-zero exit.
+ADVISORY_PROBES = {
+    "pool_branch_entered", "two_chunks_two_workers", "out_of_order_completion", "single_worker_pool", "sixtyone_worker_pool",
+    "lower_bound_obtained", "two_lower_bounds_different_entropy", "npa_obtained", "npa2_obtained", "value_strictly_inside",
+    "quantum_bracketed", "npa1_compared", "quantum_gap", "level2", "level2_2x3", "primal_value", "local_unitary_checked",
+    "randomized_stage_ran", "exact_regime:k_ge_min_dim", "exact_regime:rank_one", "exact_regime:transpose_exact",
+    "result_differs_between_rng_states", "own_upper_bound:dps2", "own_upper_bound:bilinear",
+    "switch_inside_generator", "pgm_checked", "measure_checked", "popt_sdp_checked", "real_pool_crosscheck",
+}
+
 SHRINK_BUDGET = {"quick": 20.0, "thorough": 180.0}
 BATCH_WALL = {"quick": 150.0, "thorough": 3600.0}
 
@@ -121,8 +133,12 @@ def check(prop, tier, verif_seed, only_engine=None, runs_override=None, out=prin
         # self-check: required probes
         for pname in engine.REQUIRED_PROBES.get(tier, []):
             if agg["probes"].get(pname, 0) == 0 and not violations and skipped == 0:
-                agg["harness_errors"].append({"engine": engine.NAME, "error": f"probe {pname} never fired"})
-                harness_fail = True
+                if pname in ADVISORY_PROBES:
+                    agg.setdefault("seams_not_reached", []).append(f"{engine.NAME}:{pname}")
+                    out(f"WARNING property={prop} engine {engine.NAME}: probe '{pname}' never fired in this batch (the library did not reach that seam / regime); coverage of the corresponding clause is reduced")
+                else:
+                    agg["harness_errors"].append({"engine": engine.NAME, "error": f"probe {pname} never fired"})
+                    harness_fail = True
 
     # ---- violations: shrink, write replay, verify in a fresh interpreter ----
     exit_code = 0
@@ -201,6 +217,7 @@ def check(prop, tier, verif_seed, only_engine=None, runs_override=None, out=prin
             "per_engine": agg["per_engine"],
             "runs_not_started_batch_wall": agg["skipped"],
             "known_finding_hits": agg["known_hits"],
+            "seams_not_reached": agg.get("seams_not_reached", []),
             "closest_margins": {"explanation": "largest observed (excess / allowed slack) per tolerance-based comparison; 1.0 would be a violation, negative means strictly inside", "values": agg["margins"]},
             "reported": reported,
             "harness_errors": agg["harness_errors"][:5],
